@@ -15,7 +15,7 @@ pub fn def() -> PropertyDef {
     PropertyDef {
         id: "C08",
         level: "exploration",
-        scenarios: vec![Box::new(MhStreams), Box::new(GradStreams)],
+        scenarios: vec![Box::new(MhStreams), Box::new(GradStreams), Box::new(ConstructionSweep)],
         assumptions: vec![
             "default construction takes its seeds from OS entropy, which is behind no seam: the values differ from run to run, the verdict does not (equal streams are a structural defect that shows for every entropy value; unequal ones collide with probability 2^-64)",
             "streams are observed through the public fields (chains[i].proposal, chains[i].rng), a user-defined proposal whose generator is public, and the traced momenta of HMC/NUTS",
@@ -228,6 +228,79 @@ impl Scenario for MhStreams {
     }
     fn components(&self) -> Value {
         json!({"real": ["MetropolisHastings::new / seed", "MHMarkovChain::step", "IsotropicGaussian"], "stub": ["SpyProposal (user-defined, public generator)"]})
+    }
+}
+
+/// Construction-only sweep: a within-sampler coincidence of derived chain seeds (a seed space that is too
+/// small, a hash that folds) shows up only after very many constructions. No transition is made: 64 chains
+/// are built and seeded for every seed of a block of consecutive seeds, and the chains' acceptance and
+/// proposal generators (public fields) must be pairwise distinct within each sampler.
+struct ConstructionSweep;
+impl Scenario for ConstructionSweep {
+    fn name(&self) -> &'static str {
+        "mh_construction_sweep"
+    }
+    fn runs(&self, tier: Tier) -> u64 {
+        tier.pick(512, 8192)
+    }
+    fn generate(&self, g: &mut Gen, _tier: Tier, idx: u64) -> Value {
+        // the first half of the blocks tiles 0.. upwards (small seeds are what users type), the rest is random
+        let base = if idx % 2 == 0 { (idx / 2) * 32768 } else { g.u64() };
+        json!({"base": base.to_string(), "count": 16384, "n_chains": 64})
+    }
+    fn execute(&self, p: &Value, _ws: bool) -> Outcome {
+        let mut o = Outcome::default();
+        let (base, count, nc) = (pu(p, "base"), pu(p, "count"), pus(p, "n_chains"));
+        let target = Gaussian2D { mean: arr1(&[0.0f64, 0.0]), cov: arr2(&[[1.0, 0.0], [0.0, 1.0]]) };
+        let init: Vec<Vec<f64>> = vec![vec![0.25, -0.5]; nc];
+        let template = MetropolisHastings::new(target, SpyProposal { rng: SmallRng::seed_from_u64(3), std: 0.8 }, init);
+        let mut keys: Vec<(u64, u64, usize)> = Vec::with_capacity(2 * nc);
+        for k in 0..count {
+            let seed = base.wrapping_add(k);
+            let s = template.clone().seed(seed);
+            keys.clear();
+            for (i, c) in s.chains.iter().enumerate() {
+                let (mut a, mut q) = (c.rng.clone(), c.proposal.rng.clone());
+                keys.push((a.next_u64(), a.next_u64(), i));
+                keys.push((q.next_u64(), q.next_u64(), nc + i));
+            }
+            keys.sort_unstable();
+            for w in keys.windows(2) {
+                if w[0].0 == w[1].0 && w[0].1 == w[1].1 {
+                    let (i, j) = (w[0].2.min(w[1].2), w[0].2.max(w[1].2));
+                    let gen_of = |x: usize| if x < nc { s.chains[x].rng.clone() } else { s.chains[x - nc].proposal.rng.clone() };
+                    if gen_of(i) == gen_of(j) {
+                        let name = |x: usize| if x < nc { format!("acceptance generator of chain {x}") } else { format!("proposal generator of chain {}", x - nc) };
+                        let key = if i < nc && j < nc { "MH[seeded]:chains-share-acceptance-stream" } else if i >= nc { "MH[seeded]:chains-share-proposal-stream" } else { "MH[seeded]:acceptance-generator-equals-a-proposal-generator" };
+                        o.violate("same_stream_at_construction", key, format!("{nc} chains, seed {seed}: the {} and the {} are in the same state", name(i), name(j)));
+                        o.hash = str_hash(&p.to_string());
+                        o.nontrivial = true;
+                        return o;
+                    }
+                }
+            }
+            o.work += nc as u64;
+        }
+        o.count("probe_samplers_constructed", count);
+        o.hash = str_hash(&p.to_string());
+        o.nontrivial = true;
+        o
+    }
+    fn shrink(&self, p: &Value) -> Vec<Value> {
+        let mut out = vec![];
+        let (base, count) = (pu(p, "base"), pu(p, "count"));
+        if count > 1 {
+            let h = count / 2;
+            out.push(with(&with(p, "count", json!(h)), "base", json!(base.to_string())));
+            out.push(with(&with(p, "count", json!(count - h)), "base", json!(base.wrapping_add(h).to_string())));
+        }
+        out
+    }
+    fn rule(&self) -> &'static str {
+        "one run = 16384 consecutive sampler seeds (half of the blocks tile 0.. upwards, half start at random 64-bit values); for each a 64-chain MH sampler with a user-defined seedable proposal is built and seeded, no transition made; within each sampler all 128 generators (acceptance and proposal, public fields) must be pairwise distinct"
+    }
+    fn components(&self) -> Value {
+        json!({"real": ["MetropolisHastings::new / seed / Clone", "Proposal::set_seed as called by the library"], "stub": ["SpyProposal (user-defined, public generator)"]})
     }
 }
 
